@@ -32,8 +32,8 @@ def main():
     pin = '--pin' in args
     args = [a for a in args if a != '--pin']
     spec_fp = os.path.join(os.path.dirname(os.path.abspath(__file__)), '..', '..', 'Spec', 'local_fingerprints.json')
-    if os.path.exists(spec_fp) and not pin:
-        emit.PINNED_FP.update(json.load(open(spec_fp))['modules'])
+    if not pin:
+        emit.load_pinned()
     out = os.path.join(os.path.dirname(os.path.abspath(__file__)), '..', '..', 'lean', 'QscModel', 'Gen')
     if args and args[0] == '--out':
         out = args[1]; args = args[2:]
